@@ -46,6 +46,7 @@ Interpretation decisions
     saved/loaded inside a tokenizer.
   * MazeTokenizerModular_hashes.npz is empty in this checkout: nothing here reads it.
 """
+import copy
 import dataclasses
 import hashlib
 import itertools
@@ -236,12 +237,29 @@ def observe_families():
         insts[K] = xs
         cfgs = [dump(e) for e in xs]
         ok = all(typed(c) for c in cfgs)
-        recs.append(dict(kind="enum", K=K, res=res, typed=ok, names=[_s(lambda: e.name) for e in xs], cfgs=cfgs if ok else [], hashes=[_h(lambda: hash(e)) for e in xs]))
+        recs.append(dict(kind="enum", K=K, via="positional frozendict", vf_intact=True, res=res, typed=ok, names=[_s(lambda: e.name) for e in xs], cfgs=cfgs if ok else [], hashes=[_h(lambda: hash(e)) for e in xs]))
         elem_hash[K] = {ckey(c): _h(lambda: hash(e)) for c, e in zip(cfgs, xs)} if ok else {}
         inenum = {ckey(c) for c in cfgs} if ok else set()
+        # audit 2, classes G / E / A: the SAME validity rules in another representation -- the caller's OWN mutable dict, given by
+        # keyword (the wrapper has one code path per calling convention) -- enumerated a second time in this process; the dict
+        # is emptied by its owner before anything is read from the yielded instances and must not have been modified by the call
+        own = dict(VF)
+        snap = list(own.items())
+        res3, ys = _run(lambda: list(all_instances(base, validation_funcs=own)))
+        intact = len(own) == len(snap) and all(k is k0 and v is v0 for (k, v), (k0, v0) in zip(own.items(), snap))
+        own.clear()
+        ys = ys or []
+        cfgs3 = [dump(e) for e in ys]
+        ok3 = all(typed(c) for c in cfgs3)
+        recs.append(dict(kind="enum", K=K, via="keyword dict (2nd enumeration in the process)", vf_intact=intact, res=res3, typed=ok3, names=[_s(lambda: e.name) for e in ys], cfgs=cfgs3 if ok3 else [], hashes=[_h(lambda: hash(e)) for e in ys]))
         res2, raw = _run(lambda: list(all_instances(base, None)))
         raw = raw or []
-        recs.append(dict(kind="rawcount", K=K, n=len(raw), res=res2))
+        recs.append(dict(kind="rawcount", K=K, via="None", n=len(raw), res=res2))
+        # class C: an EMPTY mapping of validation functions is not "no argument given": it filters nothing (Layer M like the
+        # size of the unvalidated space itself)
+        for via, call in (("{} positional", lambda: all_instances(base, {})), ("{} keyword", lambda: all_instances(base, validation_funcs={}))):
+            res4, zs = _run(lambda: sum(1 for _ in call()))
+            recs.append(dict(kind="rawcount", K=K, via=via, n=zs if res4 == "ok" else -1, res=res4))
         for e in raw:
             c = dump(e)
             if not typed(c):
@@ -257,6 +275,20 @@ def _nontrivial_raw(r):
 
 
 # ------------------------------------------------------------------ (C) save / load
+def _wreck(x):
+    """overwrite a serialized structure IN PLACE (every dict and list inside it): whatever still shares memory with it changes"""
+    if isinstance(x, dict):
+        for v in list(x.values()):
+            _wreck(v)
+        x.clear()
+        x["__format__"] = "wrecked"
+    elif isinstance(x, list):
+        for v in x:
+            _wreck(v)
+        x[:] = ["wrecked"]
+    return x
+
+
 def observe_io(args):
     """tok cfg -> io records (serialize, json[, zanj])"""
     c, with_zanj, tag = args
@@ -264,21 +296,39 @@ def observe_io(args):
     MTM = mt.MazeTokenizerModular
     res0, t = _run(lambda: build(c))
     if res0 != "ok":
-        return [dict(kind="io", via="build", cfg=c, name="", hash="", res=res0, eq=False, name2="", hash2="", typed2=False, cfg2=[], tag=tag)]
+        return [dict(kind="io", via="build", cfg=c, name="", hash="", res=res0, eq=False, name2="", hash2="", typed2=False, cfg2=[], tag=tag, arg_intact=True)]
     name, h = _s(lambda: t.name), _h(lambda: hash(t))
     out = []
 
+    intact = [True]
+
     def one(via, fn):
+        intact[0] = True
         res, u = _run(fn)
         if res != "ok" or u is None:
-            out.append(dict(kind="io", via=via, cfg=c, name=name, hash=h, res=res if res != "ok" else "raise:ReturnedNone", eq=False, name2="", hash2="", typed2=False, cfg2=[], tag=tag))
+            out.append(dict(kind="io", via=via, cfg=c, name=name, hash=h, res=res if res != "ok" else "raise:ReturnedNone", eq=False, name2="", hash2="", typed2=False, cfg2=[], tag=tag, arg_intact=intact[0]))
             return
         c2 = dump(u)
         t2 = isinstance(c2, dict) and typed(c2)
-        out.append(dict(kind="io", via=via, cfg=c, name=name, hash=h, res="ok", eq=_tf(lambda: u == t) == "T", name2=_s(lambda: u.name), hash2=_h(lambda: hash(u)), typed2=t2, cfg2=c2 if t2 else [], tag=tag))
+        out.append(dict(kind="io", via=via, cfg=c, name=name, hash=h, res="ok", eq=_tf(lambda: u == t) == "T", name2=_s(lambda: u.name), hash2=_h(lambda: hash(u)), typed2=t2, cfg2=c2 if t2 else [], tag=tag, arg_intact=intact[0]))
+
+    def reload():
+        """audit 2, classes E / F / A: the saved data is the CALLER'S object.  An earlier save is overwritten by its owner (must not
+        leak into the next save), the SAME saved dict is loaded twice (a load that consumes its argument breaks the second one),
+        the dict must come back unmodified (deep snapshot; Layer M), and it is overwritten in place BEFORE anything is read from
+        the second loaded tokenizer (which therefore must not share memory with it)"""
+        _wreck(t.serialize())
+        d = t.serialize()
+        snap = copy.deepcopy(d)
+        MTM.load(d)
+        intact[0] = _tf(lambda: d == snap) == "T"
+        u = MTM.load(d)
+        _wreck(d)
+        return u
 
     one("serialize", lambda: MTM.load(t.serialize()))
     one("json", lambda: MTM.load(json.loads(json.dumps(t.serialize()))))
+    one("reload", reload)
     if with_zanj:
         from zanj import ZANJ
 
@@ -561,8 +611,26 @@ def _mazes():
         plain = mz.LatticeMaze(connection_list=conn)
         targ = mz.TargetedLatticeMaze(connection_list=conn, start_pos=np.array([2, 0]), end_pos=np.array([2, 2]))
         solved = mz.SolvedMaze.from_targeted_lattice_maze(targ)
-        _MAZES = [("solved.to_tokens", solved, 0), ("solved.as_tokens", solved, 1), ("targeted.to_tokens", targ, 0), ("targeted.as_tokens", targ, 1), ("plain.to_tokens", plain, 0), ("plain.as_tokens", plain, 1)]
+        # audit 2, classes H / D: the shortest case on a degenerate oblong grid -- a 2x5 maze with NO connection at all whose
+        # solution has length 1 (start == end, in the last column: col index > number of rows) -- with every option family
+        bare = np.zeros((2, 2, 5), dtype=bool)
+        one = mz.SolvedMaze(connection_list=bare, solution=np.array([[1, 4]]))
+        _MAZES = [("solved.to_tokens", solved, 0), ("solved.as_tokens", solved, 1), ("targeted.to_tokens", targ, 0), ("targeted.as_tokens", targ, 1), ("plain.to_tokens", plain, 0), ("plain.as_tokens", plain, 1),
+                  ("len1_2x5_unconnected.to_tokens", one, 0), ("len1_2x5_unconnected.as_tokens", one, 1)]
     return _MAZES
+
+
+def _queries():
+    """audit 2, class F: uses that COLLECT derived state without tokenizing anything (the cached element list, validity, legacy
+    equivalence, summaries, the element tree, membership queries, printing, saving)"""
+    mt = _mt()
+    return [
+        ("is_valid", lambda t: t.is_valid()), ("is_legacy_equivalent", lambda t: t.is_legacy_equivalent()), ("summary", lambda t: t.summary()),
+        ("tokenizer_elements", lambda t: list(t.tokenizer_elements)), ("tokenizer_element_tree", lambda t: t.tokenizer_element_tree()),
+        ("tokenizer_element_tree(abstract)", lambda t: t.tokenizer_element_tree(abstract=True)), ("tokenizer_element_dict", lambda t: t.tokenizer_element_dict()),
+        ("has_element(UT)", lambda t: t.has_element(mt.CoordTokenizers.UT)), ("has_element(Coord())", lambda t: t.has_element(mt.StepTokenizers.Coord())),
+        ("is_AOTP", lambda t: t.is_AOTP()), ("is_UT", lambda t: t.is_UT()), ("str", str), ("repr", repr), ("serialize+overwrite", lambda t: _wreck(t.serialize())),
+    ]
 
 
 def observe_use(args):
@@ -592,6 +660,9 @@ def observe_use(args):
         r, toks = _run((lambda: maze.as_tokens(t)) if via else (lambda: t.to_tokens(maze)))
         rec["uses"].append(what + ":" + r)
         rec["n_used_ok"] += r == "ok" and isinstance(toks, list) and len(toks) > 0
+    for what, q in _queries():
+        r, _ = _run(lambda: q(t))
+        rec["uses"].append(what + ":" + r)
     rec.update(name_used=_s(lambda: t.name), hash_used=_h(lambda: hash(t)), b64_used=_s(lambda: t.hash_b64()))
     r1, u = _run(lambda: build(json.loads(json.dumps(c))))  # a fresh equal tokenizer, built AFTER the use
     rec.update(twin_eq=r1 == "ok" and u is not t and _tf(lambda: u == t) == "T", twin_name=_s(lambda: u.name), twin_hash=_h(lambda: hash(u)))
@@ -655,9 +726,11 @@ def _worker_history():
     tmp = tempfile.mkdtemp(prefix="c15h_", dir=str(lib.WORK))
     calls = [
         ("sample_all_tokenizers(3)", lambda: at.sample_all_tokenizers(3)),
+        ("sample_all_tokenizers(0)", lambda: at.sample_all_tokenizers(0)),  # audit 2, class C: the empty selection
         ("sample_tokenizers_for_test(None)", lambda: at.sample_tokenizers_for_test(None)),
         ("sample_tokenizers_for_test(10)", lambda: at.sample_tokenizers_for_test(10)),
-        ("sample_tokenizers_for_test(2)", lambda: at.sample_tokenizers_for_test(2)),
+        ("sample_tokenizers_for_test(2)", lambda: at.sample_tokenizers_for_test(2)),  # = len(EVERY_TEST_TOKENIZERS): an empty random part
+        ("sample_tokenizers_for_test(0)", lambda: at.sample_tokenizers_for_test(0)),  # class C: 0 is not None (documented: ValueError; only its effect on the enumeration is judged)
         ("all_tokenizers_set()", lambda: at.all_tokenizers_set()),
     ]
     if tier == "thorough":  # writes only below /verif/.work
@@ -726,7 +799,9 @@ def observe_legacy():
     MTM = mt.MazeTokenizerModular
     recs, images = [], []
     for m in mt.TokenizationMode:
-        for via, arg in (("mode", lambda: m), ("MazeTokenizer", lambda: mt.MazeTokenizer(tokenization_mode=m, max_grid_size=7))):
+        # (audit 2, class C: the legacy tokenizer object also with its falsy-but-meaningful grid size None = "no limit")
+        for via, arg in (("mode", lambda: m), ("MazeTokenizer", lambda: mt.MazeTokenizer(tokenization_mode=m, max_grid_size=7)),
+                         ("MazeTokenizer(max_grid_size=None)", lambda: mt.MazeTokenizer(tokenization_mode=m, max_grid_size=None))):
             res, t = _run(lambda: MTM.from_legacy(arg()))
             c = dump(t) if res == "ok" else []
             ok = res == "ok" and isinstance(c, dict) and typed(c)
@@ -783,7 +858,7 @@ def _cp(x):
 def canaries():
     tgt = [{"cls": "Unlabeled", "post": True}, {"cls": "Unlabeled", "post": False}]
     tn = ["Unlabeled(post=T)", "Unlabeled(post=F)"]
-    good_enum = dict(kind="enum", K="target", res="ok", typed=True, names=tn, cfgs=tgt, hashes=["11", "12"])
+    good_enum = dict(kind="enum", K="target", via="canary", vf_intact=True, res="ok", typed=True, names=tn, cfgs=tgt, hashes=["11", "12"])
     adj_pre = _cp(_C_ADJ)
     adj_pre["pre"] = True
     tok2 = _cp(_C_TOK)
@@ -792,7 +867,7 @@ def canaries():
     tok_aop_bad["prompt_sequencer"]["cls"] = "AOP"  # an AOP with a target tokenizer is outside the space
     good_tok = dict(kind="tok", enumerated=True, cfg=_C_TOK, name=_C_NAME, hash="123456789012345678", b64="abc", valid="T", legacy="T", twin_eq=True, twin_name=_C_NAME, twin_hash="123456789012345678",
                     procs=[dict(seed="0", res="ok", name=_C_NAME, hash="123456789012345678", b64="abc"), dict(seed="1", res="ok", name=_C_NAME, hash="123456789012345678", b64="abc")])
-    good_io = dict(kind="io", via="json", cfg=_C_TOK, name=_C_NAME, hash="5", res="ok", eq=True, name2=_C_NAME, hash2="5", typed2=True, cfg2=_C_TOK, tag="canary")
+    good_io = dict(kind="io", via="json", cfg=_C_TOK, name=_C_NAME, hash="5", res="ok", eq=True, name2=_C_NAME, hash2="5", typed2=True, cfg2=_C_TOK, tag="canary", arg_intact=True)
     good_space = dict(kind="space", scope="full", res="ok", n_items=5878656, n_distinct_names=5878656, n_hashed=5878656, n_distinct_hashes=5878656, n_spec=5878656, n_missing=0, n_extra=0, n_invalid=0, n_unstable=0, first_error="")
 
     good_use = dict(kind="use", src="canary", cfg=_C_TOK, res="ok", name=_C_NAME, hash="77", b64="q", uses=["solved.to_tokens:ok"], n_used_ok=1, name_used=_C_NAME, hash_used="77", b64_used="q",
@@ -827,6 +902,13 @@ def canaries():
         (mod(good_io, cfg2=tok2), "loaded_config_differs"),
         (mod(good_io, name2=_C_NAME[:-1]), "loaded_name_differs"),
         (mod(good_io, res="raise:KeyError"), "load_raises"),
+        (mod(good_io, via="reload", res="raise:KeyError", arg_intact=False), "load_raises"),
+        (mod(good_io, via="reload", arg_intact=False), "M:load_modifies_its_argument"),
+        (mod(good_io, via="reload", name2=_C_NAME.replace("(Coord(), )", "(wrecked, )")), "loaded_name_differs"),
+        (mod(good_enum, via="keyword dict", vf_intact=False), "M:validation_funcs_argument_modified"),
+        (mod(good_enum, via="keyword dict", res="raise:TypeError", names=[], cfgs=[], hashes=[]), "enumeration_raises"),
+        (mod(good_enum, via="keyword dict", names=[], cfgs=[], hashes=[]), "enum_missing_valid_config"),
+        (dict(kind="rawcount", K="target", via="{} positional", n=0, res="ok"), "M:raw_parameter_space_differs"),
         (unstable, "hash_unstable_across_processes"),
         (unstable_name, "name_unstable_across_processes"),
         (mod(good_tok, name=_C_NAME.replace("AOTP", "AOP")), "name_differs_from_grammar"),
@@ -989,8 +1071,9 @@ def _main(chk, thorough, hist, emit_path):
     # ---- (C) element families: enum + raw, exhaustive
     fam_recs, insts, elem_hash = observe_families()
     recs += fam_recs
-    chk.notes["family_sizes_real"] = {r["K"]: len(r["names"]) for r in fam_recs if r["kind"] == "enum"}
-    chk.notes["raw_sizes_real"] = {r["K"]: r["n"] for r in fam_recs if r["kind"] == "rawcount"}
+    chk.notes["family_sizes_real"] = {r["K"]: len(r["names"]) for r in fam_recs if r["kind"] == "enum" and r["via"].startswith("positional")}
+    chk.notes["family_sizes_real_keyword_dict"] = {r["K"]: len(r["names"]) for r in fam_recs if r["kind"] == "enum" and not r["via"].startswith("positional")}
+    chk.notes["raw_sizes_real"] = {r["K"]: r["n"] for r in fam_recs if r["kind"] == "rawcount" and r["via"] == "None"}
 
     # ---- (C) the whole space
     # quick: hash() of every 4th member (names of all); thorough: of all, in three processes
@@ -1104,7 +1187,7 @@ def _main(chk, thorough, hist, emit_path):
             chk.count(key, tuple(key) not in seen)
             seen.add(tuple(key))
         else:
-            chk.count([k, r.get("K", r.get("scope", r.get("mode", "")))], k in ("enum", "space", "legacyset", "legacy"))
+            chk.count([k, r.get("K", r.get("scope", r.get("mode", ""))), r.get("via", "")], k in ("enum", "space", "legacyset", "legacy"))
     kinds = {}
     for r in recs:
         kinds[r["kind"]] = kinds.get(r["kind"], 0) + 1
